@@ -122,6 +122,9 @@ def execute_here(plan, keep_events=False):
             faces = z_rows(code)
             if part['kind'] == 'geometry':
                 run_geometry(part, sim, code, rc, faces, violate, stats)
+            elif part['kind'] == 'interleaved':
+                run_interleaved(part, sim, code, rc, faces, violate, stats,
+                                states)
             else:
                 run_trajectories(part, sim, code, rc, faces, violate,
                                  stats, states)
@@ -170,58 +173,84 @@ def run_geometry(plan, sim, code, rc, faces, violate, stats):
             'first': bad[0]})
 
 
+class _Interrupt(KeyboardInterrupt):
+    """Ctrl-C delivered between two sweeps (raised from the monitor)."""
+
+
 def run_trajectories(plan, sim, code, rc, faces, violate, stats, states):
     n = rc.n
     m = len(code.stabilizer_coordinates)
     face_set = set(faces)
     trng = stream(plan['seed'], 'tiebreak')
+    from panqec.bpauli import pauli_to_bsf
+    reuse = bool(plan.get('reuse'))
+    ki = plan.get('ki') or {}          # error index (str) -> step
+    dec = None
     for ei, err in enumerate(plan['errors']):
-        dec = make_decoder(plan['decoder'], code, plan.get('knobs'))
-        dec._rng = SchedRng(trng, sim)
+        if dec is None or not reuse:
+            dec = make_decoder(plan['decoder'], code, plan.get('knobs'))
+            dec._rng = SchedRng(trng, sim)
+            real = dec.sweep_move
+        elif ei > 0:
+            sim.probe('decoder_reused_for_next_decode')
         e = refmodel.op_from_string(err)
-        from panqec.bpauli import pauli_to_bsf
         syndrome = code.measure_syndrome(pauli_to_bsf(err))
         state = {'step': 0, 'correction': None, 'signs': None, 'bad': None}
-        real = dec.sweep_move
+        ki_step = ki.get(str(ei))
 
-        def monitored(signs, correction, *a, _real=real, _st=state):
+        def monitored(signs, correction, *a, _real=real, _st=state,
+                      _ki=ki_step, _e=e):
             new = _real(signs, correction, *a)
             _st['step'] += 1
             stats['steps'] += 1
-            _st['correction'] = correction
-            _st['signs'] = new
+            # snapshots: what the automaton holds *now* (a later reuse or
+            # clearing of the same objects must not matter)
+            _st['correction'] = dict(correction)
+            _st['signs'] = np.array(new, copy=True)
             if _st['bad'] is None:
-                _st['bad'] = step_invariant(code, rc, faces, face_set, e,
+                _st['bad'] = step_invariant(code, rc, faces, face_set, _e,
                                             new, correction, n)
                 if _st['bad'] is not None:
                     _st['bad']['step'] = _st['step']
                     _st['bad']['sweep_args'] = [list(x) if isinstance(
                         x, tuple) else x for x in a]
+            if _ki is not None and _st['step'] == _ki:
+                sim.count_fault('ki:between_sweeps')
+                raise _Interrupt()
             return new
 
         dec.sweep_move = monitored
+        interrupted = False
         try:
             out = dec.decode(syndrome)
+        except _Interrupt:
+            interrupted = True
+            out = None
         except Exception as ex:
             violate('automaton_raised', {
                 'size': plan['size'], 'exc': type(ex).__name__,
                 'msg': str(ex)[:160], 'error': err,
-                'step': state['step']})
+                'step': state['step'], 'decode_index': ei})
             return
         stats['decodes'] += 1
         sim.log.add('traj', 'decode', [ei, digest(err), state['step'],
-                                       digest(np.asarray(out).tolist())])
+                                       digest(np.asarray(out).tolist())
+                                       if out is not None else 'ki'])
         if state['bad'] is not None:
             b = state['bad']
-            violate(b.pop('class'), dict(b, size=plan['size'], error=err))
+            violate(b.pop('class'), dict(b, size=plan['size'], error=err,
+                                         decode_index=ei))
             return
+        if interrupted:
+            sim.probe('decode_interrupted_then_decoder_reused')
+            continue
         corr = state['correction'] or {}
         outv = [int(v) for v in np.asarray(out).ravel()]
         want = refmodel.bsf_list(
             refmodel.op_from_dict(corr, rc.qindex), n)
         if outv != want:
             violate('returned_vector_is_not_the_correction', {
-                'size': plan['size'], 'error': err})
+                'size': plan['size'], 'error': err, 'decode_index': ei})
             return
         if any(outv[:n]):
             violate('correction_not_z_only', {'size': plan['size'],
@@ -239,7 +268,8 @@ def run_trajectories(plan, sim, code, rc, faces, violate, stats, states):
             syn = rc.syndrome(tot)
             if any(syn[r] for r in faces):
                 violate('stopped_clean_but_face_syndrome_left', {
-                    'size': plan['size'], 'error': err})
+                    'size': plan['size'], 'error': err,
+                    'decode_index': ei})
                 return
             sim.probe('automaton_cleared_all_excitations')
         else:
@@ -247,7 +277,58 @@ def run_trajectories(plan, sim, code, rc, faces, violate, stats, states):
         if state['step'] > 0:
             states.add(digest([plan['decoder'], plan['code'], plan['size'],
                                min(state['step'], 40),
-                               min(len(corr), 12), cleared]))
+                               min(len(corr), 12), cleared, reuse]))
+
+
+SWEEP_DIRS = [(1, 0, 1), (1, 0, -1), (0, 1, 1), (0, 1, -1),
+              (-1, 0, 1), (-1, 0, -1), (0, -1, 1), (0, -1, -1)]
+
+
+def run_interleaved(plan, sim, code, rc, faces, violate, stats, states):
+    """Two (or three) automaton runs stepped alternately on ONE decoder
+    object through its public step interface (get_initial_state /
+    sweep_move), the order decided by the seeded scheduler: after every step
+    the state each run holds must still equal the face syndrome of its own
+    error + its own correction."""
+    from panqec.bpauli import pauli_to_bsf
+    n = rc.n
+    face_set = set(faces)
+    dec = make_decoder(plan['decoder'], code, plan.get('knobs'))
+    dec._rng = SchedRng(stream(plan['seed'], 'tiebreak'), sim)
+    srng = stream(plan['seed'], 'interleave')
+    runs = []
+    for err in plan['errors']:
+        syn = code.measure_syndrome(pauli_to_bsf(err))
+        runs.append({'err': err, 'e': refmodel.op_from_string(err),
+                     'signs': dec.get_initial_state(syn), 'corr': {},
+                     'k': 0})
+    for step in range(plan.get('steps', 12)):
+        r = runs[srng.randrange(len(runs))]
+        args = ()
+        if plan['decoder'] == 'rotated':
+            args = (SWEEP_DIRS[r['k'] % len(SWEEP_DIRS)],)
+        try:
+            r['signs'] = dec.sweep_move(r['signs'], r['corr'], *args)
+        except Exception as ex:
+            violate('automaton_raised', {
+                'size': plan['size'], 'exc': type(ex).__name__,
+                'msg': str(ex)[:160], 'error': r['err'], 'step': step})
+            return
+        r['k'] += 1
+        stats['steps'] += 1
+        for q in runs:
+            bad = step_invariant(code, rc, faces, face_set, q['e'],
+                                 q['signs'], q['corr'], n)
+            if bad is not None:
+                violate(bad.pop('class'), dict(
+                    bad, size=plan['size'], error=q['err'],
+                    interleaved_step=step,
+                    run_just_stepped=runs.index(r),
+                    run_checked=runs.index(q)))
+                return
+    sim.probe('interleaved_runs_on_one_decoder')
+    states.add(digest(['interleaved', plan['decoder'], plan['code'],
+                       plan['size'], len(runs)]))
 
 
 def step_invariant(code, rc, faces, face_set, e, signs, correction, n):
@@ -368,6 +449,46 @@ def trajectory_plans(tier, seed):
                     knobs = {'max_sweep_factor': rng.choice([1, 4])}
                 add(kind, cname, size, errs, knobs,
                     chunk=6 if kind == 'cubic' else 2)
+    # histories on ONE decoder object: several decodes in a row, some of
+    # them interrupted (Ctrl-C between two sweeps) before the next one
+    n_hist = 480 if tier == 'quick' else 6000
+    for kind, codes in FAMILIES.items():
+        for cname in codes:
+            if cname == 'RotatedToric3DCode':
+                continue      # known finding: would stop at the first step
+            for size in sizes_for(kind, tier)[:3]:
+                try:
+                    n = make_code(cname, size).n
+                except Exception:
+                    continue
+                for _ in range(max(1, n_hist // 12)):
+                    k = rng.randint(3, 6)
+                    errs = [random_error(rng, n, rng.choice(
+                        [0.03, 0.08, 0.15, 0.25]), rng.choice(['Z', 'XYZ']))
+                        for _ in range(k)]
+                    if rng.random() < 0.3:
+                        errs[rng.randrange(k)] = 'I' * n
+                    ki = {}
+                    for i in range(k - 1):
+                        if rng.random() < 0.45:
+                            ki[str(i)] = rng.randint(1, 4)
+                    out.append({
+                        'property': PROP, 'kind': 'trajectory',
+                        'seed': H(seed, 'hist', len(out)), 'decoder': kind,
+                        'code': cname, 'size': size, 'errors': errs,
+                        'reuse': True, 'ki': ki,
+                        'knobs': ({'max_rounds': 2} if kind == 'rotated'
+                                  else None)})
+                    out.append({
+                        'property': PROP, 'kind': 'interleaved',
+                        'seed': H(seed, 'il', len(out)), 'decoder': kind,
+                        'code': cname, 'size': size,
+                        'errors': [random_error(rng, n, rng.choice(
+                            [0.05, 0.12, 0.2]), 'Z')
+                            for _ in range(rng.choice([2, 2, 3]))],
+                        'steps': rng.randint(6, 16),
+                        'knobs': ({'max_rounds': 2} if kind == 'rotated'
+                                  else None)})
     return out
 
 
@@ -438,12 +559,16 @@ def run_job(job):
                     summ['probes'].get('session_mixing_code_classes', 0) + 1
         for k, v in o['probes'].items():
             summ['probes'][k] = summ['probes'].get(k, 0) + v
+        for k, v in o['fault_counts'].items():
+            summ['fault_counts'][k] = summ['fault_counts'].get(k, 0) + v
         if not summ['samples']:
             s = {k: plan[k] for k in ('kind', 'decoder', 'code', 'size')}
-            if plan['kind'] == 'trajectory':
+            if plan['kind'] in ('trajectory', 'interleaved'):
                 s['first_error'] = plan['errors'][0]
                 s['n_errors'] = len(plan['errors'])
                 s['knobs'] = plan.get('knobs')
+                s['reuse'] = plan.get('reuse')
+                s['ki'] = plan.get('ki')
             s['stats'] = o['stats']
             summ['samples'].append(s)
         for v in o['violations']:
@@ -476,6 +601,8 @@ def aggregate(agg, r):
     agg['states'].update(r['states'])
     for k, v in r['probes'].items():
         agg['probes'][k] = agg['probes'].get(k, 0) + v
+    for k, v in r['fault_counts'].items():
+        agg['fault_counts'][k] = agg['fault_counts'].get(k, 0) + v
     kinds = {(s['kind'], s['decoder']) for s in agg['samples']}
     for s in r['samples']:
         if (s['kind'], s['decoder']) not in kinds:
@@ -514,7 +641,7 @@ def shrink(plan, want_sig, max_exec=150):
                     improved = True
                     break
         return best, n_exec
-    if plan['kind'] != 'trajectory':
+    if plan['kind'] != 'trajectory' or plan.get('reuse'):
         return plan, 0
     best = copy.deepcopy(plan)
     n_exec = [0]
@@ -574,7 +701,10 @@ def evidence(tier, agg, wall):
             'on 2x2x2 lattices (sampled for the rotated decoder in quick), '
             'seeded Z-only and Pauli errors at rates 0.02-0.3 on cuboid '
             'lattices up to 4x4x3, tie-breaks decided by the seeded '
-            'scheduler.  distinct_nontrivial = distinct (decoder, code, '
+            'scheduler; histories of 3-6 decodes on one decoder object with '
+            'Ctrl-C injected between two sweeps of some of them; two or '
+            'three runs stepped alternately on one decoder through '
+            'get_initial_state / sweep_move in a scheduler-chosen order.  distinct_nontrivial = distinct (decoder, code, '
             'size, steps bucket, correction size bucket, cleared?) '
             'trajectory classes plus (code, size) geometry sweeps'),
         'samples': agg['samples'] or [{'note': 'none'}],
@@ -584,7 +714,7 @@ def evidence(tier, agg, wall):
         'automaton_steps_observed': agg['steps'],
         'edges_checked': agg['edges'],
         'decodes': agg['decodes'],
-        'faults_fired': {},
+        'faults_fired': dict(sorted(agg['fault_counts'].items())),
         'reach_probes': dict(sorted(agg['probes'].items())),
         'real_vs_stub': {
             'real': ['SweepDecoder3D / RotatedSweepDecoder3D: decode, '
